@@ -166,11 +166,17 @@ func (commander *Commander) CreateTransaction(ctx context.Context, parameters Pa
 		return nil, err
 	}
 
-	if !parameters.DryRun {
-		commander.monitor.CommittedTransactions(ctx, *log.Data.(ledger.NewTransactionLogPayload).Transaction, log.Data.(ledger.NewTransactionLogPayload).AccountMetadata)
+	payload, ok := log.Data.(ledger.NewTransactionLogPayload)
+	if !ok {
+		// the idempotency key belongs to a write of another kind
+		return nil, NewErrConflict()
 	}
 
-	return log.Data.(ledger.NewTransactionLogPayload).Transaction, nil
+	if !parameters.DryRun {
+		commander.monitor.CommittedTransactions(ctx, *payload.Transaction, payload.AccountMetadata)
+	}
+
+	return payload.Transaction, nil
 }
 
 func (commander *Commander) SaveMeta(ctx context.Context, parameters Parameters, targetType string, targetID interface{}, m metadata.Metadata) error {
@@ -251,11 +257,17 @@ func (commander *Commander) RevertTransaction(ctx context.Context, parameters Pa
 		return nil, err
 	}
 
-	if !parameters.DryRun {
-		commander.monitor.RevertedTransaction(ctx, transactionToRevert, log.Data.(ledger.RevertedTransactionLogPayload).RevertTransaction)
+	payload, ok := log.Data.(ledger.RevertedTransactionLogPayload)
+	if !ok {
+		// the idempotency key belongs to a write of another kind
+		return nil, NewErrConflict()
 	}
 
-	return log.Data.(ledger.RevertedTransactionLogPayload).RevertTransaction, nil
+	if !parameters.DryRun {
+		commander.monitor.RevertedTransaction(ctx, transactionToRevert, payload.RevertTransaction)
+	}
+
+	return payload.RevertTransaction, nil
 }
 
 func (commander *Commander) Close() {
